@@ -10,11 +10,14 @@ import (
 	"encoding/json"
 	"errors"
 	"fmt"
+	"io"
+	"net"
 	"os"
 	"runtime"
 	"strconv"
 	"strings"
 	"sync"
+	"sync/atomic"
 	"testing"
 	"testing/synctest"
 
@@ -54,20 +57,63 @@ type accItem struct {
 	err error
 }
 type accepter struct {
-	r  *runner
-	in chan accItem
+	r           *runner
+	in          chan accItem
+	net         server.Accepter // server.NetAccepter over a fakeListener (scenarios with cancelCloses)
+	injected    atomic.Bool
+	cancelAfter atomic.Bool
 }
+
+// fakeListener is a net.Listener over the scenario's connection queue, for the real server.NetAccepter: Accept hands out
+// the queued connections (or injected failures) and fails with net.ErrClosed once the listener has been closed.
+type fakeListener struct {
+	a      *accepter
+	closed chan struct{}
+	once   sync.Once
+}
+type fakeConn struct {
+	net.Conn
+	it accItem
+}
+type fakeAddr struct{}
+
+func (fakeAddr) Network() string { return "fake" }
+func (fakeAddr) String() string  { return "fake" }
+
+func (l *fakeListener) Accept() (net.Conn, error) {
+	select {
+	case it := <-l.a.in:
+		if it.err != nil {
+			l.a.injected.Store(true)
+			return nil, it.err
+		}
+		return &fakeConn{it: it}, nil
+	case <-l.closed:
+		return nil, &net.OpError{Op: "accept", Net: "fake", Err: net.ErrClosed}
+	}
+}
+func (l *fakeListener) Close() error   { l.once.Do(func() { close(l.closed) }); return nil }
+func (l *fakeListener) Addr() net.Addr { return fakeAddr{} }
+
+// the "framing" NetAccepter is given: the connection already is a channel of the harness
+func unwrapFraming(r io.Reader, _ io.WriteCloser) channel.Channel { return r.(*fakeConn).it.ch }
 
 func (a *accepter) Accept(ctx context.Context) (channel.Channel, error) {
 	a.r.rec.Log("AcceptB")
 	var it accItem
 	if a.r.sc.Opts.CancelCloses {
-		select {
-		case it = <-a.in:
-		case <-ctx.Done():
-			a.r.rec.Log("AcceptErr", "kind", "closing")
-			return nil, fmt.Errorf("accept: %w", channel.ErrClosed)
+		// the real NetAccepter: whatever it reports by itself must be a closed-listener error, and only once the context has ended
+		a.injected.Store(false)
+		ch, err := a.net.Accept(ctx)
+		if err != nil {
+			kind := "other"
+			if channel.IsErrClosing(err) {
+				kind = "closing"
+			}
+			a.r.rec.Log("AcceptErr", "kind", kind, "net", true, "injected", a.injected.Load())
+			return nil, err
 		}
+		it = accItem{ch: ch}
 	} else {
 		it = <-a.in
 	}
@@ -76,10 +122,14 @@ func (a *accepter) Accept(ctx context.Context) (channel.Channel, error) {
 		if channel.IsErrClosing(it.err) {
 			kind = "closing"
 		}
-		a.r.rec.Log("AcceptErr", "kind", kind)
+		a.r.rec.Log("AcceptErr", "kind", kind, "net", false, "injected", true)
 		return nil, it.err
 	}
 	a.r.rec.Log("AcceptRet", "conn", it.ch.(*vh.VChan).Name)
+	if a.cancelAfter.CompareAndSwap(true, false) {
+		a.r.rec.Log("CtxCancel")
+		a.r.cancel()
+	}
 	return it.ch, nil
 }
 
@@ -186,6 +236,9 @@ func (r *runner) doStep(st Step) {
 		name := fmt.Sprintf("k%d", r.nconn)
 		ch := vh.NewVChan(name, r.rec, false)
 		r.byName[name] = ch
+		if st.Kind == "cancelafter" { // the context ends after this connection has been handed over, before Loop asks for the next one
+			r.acc.cancelAfter.Store(true)
+		}
 		r.acc.in <- accItem{ch: ch}
 	case "acceptfail":
 		if st.Kind == "closing" {
@@ -302,6 +355,7 @@ func Run(t *testing.T, sc *Scenario, emit func([]vh.Event, map[string]int)) {
 		r := &runner{t: t, sc: sc, rec: rec, sched: s, stats: stats, conns: map[int]*vh.VChan{}, byName: map[string]*vh.VChan{}, svcs: map[int]*service{},
 			svcByG: map[int64]*service{}, srvOf: map[*jrpc2.Server]*service{}, chanOf: map[*service]*vh.VChan{}, hgate: map[string][]chan struct{}{}}
 		r.acc = &accepter{r: r, in: make(chan accItem, 16)}
+		r.acc.net = server.NetAccepter(&fakeListener{a: r.acc, closed: make(chan struct{})}, unwrapFraming)
 		point := func(site string, args ...any) {
 			if site != "srv.stop.lock" { // the inner servers run freely; only the stop watcher is a scheduling point
 				return
